@@ -53,6 +53,7 @@ func runC16(c *Ctx) {
 	c.rule("overflow-after-convertible", "the flag source calls its reflect-Overflow helper only after value.Type().ConvertibleTo(T) succeeded for the very type T the target was allocated with (reflect Overflow* panics on receivers of other kind classes)", 1)
 	c.rule("addr-guard", "every reflect.Value.Addr in the decoders, manglers, parsers and wrappers has a receiver that is addressable by construction (reflect.New(T).Elem(), a field or element of such, the successful result of a repository function that only returns such values) or under a CanAddr test", 6)
 	c.rule("anon-struct-only", "the anonymous-flatten mangler strips the pointer of an embedded field (Mangle) and rebuilds it through the NumField-calling helper (Unmangle) only under a test that the pointee is a struct; both directions agree", 3)
+	c.rule("wrong-error-returned", "(contradiction rule, whole repository) no return inside the failure branch of one error hands back a different error value that is known nil on that path (a wrong-variable slip that turns a detected failure into (nil, nil), which the caller then indexes or dereferences)", 1)
 	c.rule("map-results-made", "the map-returning functions of the parse package return, with a nil error, only make-built maps (the flag helpers assign into the parsed map on a later Set; a nil map would panic)", 3)
 	c.rule("loop-progress", "every loop that is not a range loop in parse, caseconversion, transform, helper, ptrify has a recognised progress argument (counted index, scanner advance, type/value descent, map iterator, shrinking string over non-empty constants, channel drain)", 8)
 
@@ -133,6 +134,7 @@ func runC16(c *Ctx) {
 	c16SetConvert(c, kc)
 	c16Index(c)
 	c16MapResultsMade(c)
+	c16WrongErrorReturned(c, "wrong-error-returned")
 	c16AnonStructOnly(c, "anon-struct-only")
 	c16AddrGuard(c)
 	c16OverflowAfterConvertible(c)
